@@ -204,3 +204,25 @@ func init() {
 		return viol, n
 	}
 }
+
+func init() {
+	// observer.listener / endListener are assigned only in NewObserver; the stream hands in s.listen / s.listenEnd (C03, C12)
+	frameScans["listener-wiring"] = func(eng *Engine) ([]string, int) {
+		v, n := storesToField(eng, "couchbase.observer", "listener", set("couchbase.NewObserver"))
+		v2, n2 := storesToField(eng, "couchbase.observer", "endListener", set("couchbase.NewObserver"))
+		v, n = merge(v, n, v2, n2)
+		v3, n3 := storesToField(eng, "couchbase.observer", "persistSeqNo", set("couchbase.(*observer).SetPersistSeqNo", "couchbase.NewObserver"))
+		v, n = merge(v, n, v3, n3)
+		// ConsumeEvent is invoked from waitAndForward only
+		for _, f := range eng.allRepoFuncs() {
+			for _, b := range f.Blocks {
+				for _, in := range b.Instrs {
+					if c, ok := in.(*ssa.Call); ok && c.Call.IsInvoke() && c.Call.Method.Name() == "ConsumeEvent" && funcKey(f) != "stream.(*stream).waitAndForward" {
+						v = append(v, funcKey(f)+" calls Consumer.ConsumeEvent")
+					}
+				}
+			}
+		}
+		return v, n
+	}
+}
